@@ -70,7 +70,7 @@ def gen_cases(ctx):
                         p2[other[0]] = other[1]
                     cases.append((p2, q, ['small-universe', pk]))
     # size maps over boundary values x CA types
-    sizes = [2047, 2048, 2049, 3071, 3072, 4096]
+    sizes = [2047, 2048, 2049, 3071, 3072, 4096, 999, 9999, 10000, 16384]     # incl. values with a different number of decimal digits
     cas = [('', 0), ('ssh-rsa', 2048), ('ssh-rsa', 4096), ('ssh-ed25519', 256), ('', 4096), ('ssh-rsa', 0)]
     combos = list(itertools.product(sizes, sizes, cas, cas, [False, True]))
     if ctx.tier != 'thorough':
@@ -149,7 +149,7 @@ def grow_peer(r, q):
 def run(ctx):
     cov = Coverage('one evaluation = one (policy, peer) pair run through the real Policy.evaluate; non-trivial = distinct pairs in which the policy specifies at least one field; '
                    'small universe: all lists of length <=3 over {a,b,c,kex-strict-s} for policy and peer per list field (quick: a seeded sample; thorough: all), all flag combinations, '
-                   'optional-host-key subsets, size maps over {2047,2048,2049,3071,3072,4096} x CA types, random large instances over the real database names')
+                   'optional-host-key subsets, size maps over {999,2047,2048,2049,3071,3072,4096,9999,10000,16384} x CA types, random large instances over the real database names')
     cases = gen_cases(ctx)
     failures, mismatches = [], []
     lines = ['policy.evaluate %s %s' % (policy_tokens(p), peer_tokens(q)) for p, q, _ in cases]
